@@ -234,6 +234,23 @@ fn line_gen(e: &mut Ent) -> String {
 pub fn build_lines(e: &mut Ent) -> Vec<String> {
     let n = e.below(41) as usize;
     let mut v: Vec<String> = (0..n).map(|_| line_gen(e)).collect();
+    // rare class: a very large batch (hundreds to thousands of lines between two polls), built by
+    // repeating the generated lines with the written values varied
+    if e.chance(1, 24) && !v.is_empty() {
+        let total = e.pick(&[255usize, 256, 257, 1000, 4096]);
+        let base = v.clone();
+        let mut x = e.u32() | 1;
+        while v.len() < total {
+            x = x.wrapping_mul(1664525).wrapping_add(1013904223);
+            let l = &base[(x >> 8) as usize % base.len()];
+            let parts: Vec<&str> = l.split(':').collect();
+            if parts.len() == 3 && (parts[0] == "u8" || parts[0] == "ioport") {
+                v.push(format!("{}:{}:{:x}", parts[0], parts[1], (x >> 24) as u8));
+            } else {
+                v.push(l.clone());
+            }
+        }
+    }
     // sometimes an early stop followed by more lines (moot)
     if e.chance(1, 6) && !v.is_empty() {
         let k = e.below(v.len() as u32) as usize;
